@@ -395,6 +395,10 @@ func genPipe(r *Rng, tier string, profile string) *pipeCase {
 	if storm {
 		c.nch = 1
 	}
+	// directed share of C08: RECONFIGURATION in mid-stream (pulse lengths - also the pre-trigger length alone -
+	// or the edge-multi settings again) while edges are pending: no crash, records exact, and between two
+	// requests the records must not depend on how the stream is cut into blocks
+	reconf := profile == "C08" && !storm && r.Chance(15)
 	// directed share of C01: an edge-multi channel is the group-trigger SOURCE of channels that are in
 	// another trigger mode (their secondaries are cut at frames found by the edge-multi search, possibly
 	// one block late) - needs every channel to retain the same history
@@ -522,14 +526,47 @@ func genPipe(r *Rng, tier string, profile string) *pipeCase {
 	if profile == "C02" && r.Chance(70) {
 		first = int64(r.Pick(1000, 123456789, 1<<40)) // away from the frame-0 pseudo trigger
 	}
+	curNpre, curNsamp := c.npre, c.nsamp
+	// directed share (C02, C01): a FRESH start on restored settings only, and before the first block - before any
+	// trigger - the records are made LONGER (ConfigurePulseLengths): the search must still begin at the new
+	// pre-trigger length, whatever the record length was when the channel was created; mostly from frame 0
+	if (profile == "C02" || profile == "C01") && startStyle == 0 && len(c.ops) == 0 && r.Chance(40) {
+		var longer [][2]int
+		for _, s2 := range sizes {
+			if s2[1]-c.nsamp > s2[0] {
+				longer = append(longer, s2)
+			}
+		}
+		if len(longer) > 0 {
+			s2 := longer[r.Intn(len(longer))]
+			c.ops = append(c.ops, pipeOp{kind: "L", nsamp: s2[1], npre: s2[0]})
+			curNpre, curNsamp = s2[0], s2[1]
+			if r.Chance(75) {
+				first = int64(r.Pick(0, 0, 0, 1, 5))
+			}
+		}
+	}
 	t0 := int64(1700000000)*1e9 + int64(r.Intn(1000000))
 	parts := partition(r, total, c.npre, c.nsamp)
 	jitter := profile == "C01" && r.Chance(35)
 	pos := 0
-	curNpre, curNsamp := c.npre, c.nsamp
 	for _, l := range parts {
 		if pos > 0 && c09 && r.Chance(12) { // connection edits between blocks
 			c.ops = append(c.ops, pipeOp{kind: []string{"GA", "GD"}[r.Intn(2)], pairs: [][2]int{{r.Intn(c.nch), r.Intn(c.nch)}}})
+		}
+		if pos > 0 && reconf && r.Chance(30) {
+			switch r.Intn(4) {
+			case 0: // the pre-trigger length alone
+				c.ops = append(c.ops, pipeOp{kind: "L", nsamp: curNsamp, npre: r.Range(1, curNsamp-1)})
+			case 1:
+				s2 := sizes[r.Intn(len(sizes))]
+				c.ops = append(c.ops, pipeOp{kind: "L", nsamp: s2[1], npre: s2[0]})
+				curNpre, curNsamp = s2[0], s2[1]
+			case 2:
+				c.ops = append(c.ops, pipeOp{kind: "L", nsamp: curNsamp, npre: curNpre}) // re-sent
+			default:
+				c.ops = append(c.ops, pipeOp{kind: "T", chans: allChans(), ts: genTS(r, curNsamp, true, true)})
+			}
 		}
 		if pos > 0 && r.Chance(6) && profile != "C08" {
 			switch r.Intn(5) {
@@ -576,13 +613,19 @@ func genPipe(r *Rng, tier string, profile string) *pipeCase {
 }
 
 // oneBlock is the same case with all data blocks merged into a single block (requests that
-// precede the first block are kept; C08 cases have none in between).
+// precede the first block are kept; consecutive blocks between two requests are merged).
 func (c *pipeCase) oneBlock() *pipeCase {
 	d := *c
 	d.ops = nil
 	var merged *pipeOp
 	for _, op := range c.ops {
 		if op.kind != "B" {
+			// a request between blocks (reconfiguration cases): the blocks before it are one block, those after
+			// it the next
+			if merged != nil {
+				d.ops = append(d.ops, *merged)
+				merged = nil
+			}
 			d.ops = append(d.ops, op)
 			continue
 		}
